@@ -134,12 +134,12 @@ def parse_item_block(lines, start, file, path):
         elif b == "fn":
             cur_sections = spec.sections
             cur_loop = None
-        elif b.startswith("before ") or b.startswith("after "):
+        elif re.match(r"(before|after)(#\d+)? ", b):
             where, rest = b.split(" ", 1)
             mm = re.match(r"<<<(.*)>>>$", rest.strip(), re.S)
             if not mm:
                 raise WeaveError("bad anchor at line %d" % (i + 1))
-            pending_insert = (where, mm.group(1), [])
+            pending_insert = (where, mm.group(1).replace("\\n", "\n"), [])
             spec.inserts.append(pending_insert)
         elif b.startswith("replace"):
             mm = re.match(r"replace(-all)?\[([^\]]+)\]\s*<<<(.*?)>>>\s*=>\s*<<<(.*)>>>$", b, re.S)
@@ -394,9 +394,17 @@ def weave_fn(w, spec, text, fn_label, item_index, twin):
         if body_open is None:
             raise WeaveError("insert on bodiless fn %s" % fn_label)
         cnt = text.count(anchor, body_open)
-        if cnt != 1:
+        nth = None
+        if "#" in where:
+            where, nth = where.split("#")
+            nth = int(nth)
+        if nth is None and cnt != 1:
             raise WeaveError("%s: anchor %r matched %d times" % (fn_label, anchor, cnt))
-        p = text.index(anchor, body_open)
+        if nth is not None and not (1 <= nth <= cnt):
+            raise WeaveError("%s: anchor %r occurrence %d of %d not found" % (fn_label, anchor, nth, cnt))
+        p = body_open
+        for _ in range(nth or 1):
+            p = text.index(anchor, p + 1)
         if where == "after":
             p += len(anchor)
         edits.append((p, "\n" + "\n".join(raw) + "\n"))
@@ -499,6 +507,13 @@ def expand(unit_path, twin=False, repo=None):
         ln = lines[i]
         s = ln.lstrip()
         if not s.startswith("//@"):
+            mm = re.search(r"//.*?((?:@C\d+\.[A-Za-z0-9_.\-]+\s*)+)$", ln)
+            if mm:
+                # labelled line in hand-written text (typically a lemma precondition that carries
+                # a property-level fact): a failure pointing at it is reported under this label
+                w.clauses.append({"line_start": w.cur_line(), "line_end": w.cur_line(),
+                                  "labels": re.findall(r"@(C\d+\.[A-Za-z0-9_.\-]+)", mm.group(1)),
+                                  "kind": "hint", "fn": None, "item": None, "text": " ".join(ln.split("//")[0].split())})
             w.add(ln)
             i += 1
             continue
